@@ -123,7 +123,8 @@ def lt_of(n: int):
 
 
 def date_of(cal, d: int):
-    return _P().LocalDate._ctor(days_since_epoch=d, calendar=cal)
+    import routes
+    return routes.routed_date(cal, d)
 
 
 def ldt_of(cal, d: int, n: int):
